@@ -239,6 +239,10 @@ impl Ctx {
     /// Does the failure match a listed known finding (of any property: a failure found by one
     /// check may be attributed to the property whose oracle clause it violates)?
     pub fn match_known(&self, f: &Failure) -> Option<&KnownFinding> {
+        // development aid: VERIF_NO_KNOWN=1 (with VERIF_SURVEY=1) tabulates every failure, listed or not
+        if std::env::var("VERIF_NO_KNOWN").is_ok() {
+            return None;
+        }
         self.known.iter().find(|k| {
             k.status == "known"
                 && !k.sig.is_empty()
